@@ -19,7 +19,7 @@ k<0 or k>n, an error or the whole list for k=0.
 """
 import itertools
 
-from ..core import Sub, fail, lit, isnum
+from ..core import WholeFloats, Sub, fail, lit, isnum
 
 BOUNDS = {
     'quick': 'INDEX: every nested array R x C with R,C <= 4 (numeric and text, position-coded elements) as '
@@ -700,4 +700,17 @@ class AfterFloatUse(Sub):
         return None
 
 
-SUBS = [Choose(), IndexGrid(), IndexVector(), MatchExact(), MatchSorted(), IndexMatch(), AfterFloatUse()]
+class LookupWholeFloats(WholeFloats):
+    name = 'c18.whole_floats'
+    VARS = {'arr': [[1, 2, 3], [4, 5, 6], [7, 8, 9]]}
+    TEMPLATES = [
+        ('INDEX({{5,6,7,8}},{0})', [(1,), (2,), (4,), (5,), (0,)]),
+        ('INDEX({{1,2,3;4,5,6}},{0},{1})', [(1, 1), (2, 3), (2, 0), (0, 2), (3, 1)]),
+        ('INDEX(arr,{0},{1})', [(1, 2), (3, 3), (4, 1)]),
+        ('CHOOSE({0},"a","b","c")', [(1,), (3,), (4,), (0,)]),
+        ('MATCH({0},{{1,2,3}},{1})', [(2, 0), (2, 1), (3, -1), (5, 1)]),
+        ('INDEX({{5,6,7}},MATCH({0},{{5,6,7}},0))', [(5,), (7,)]),
+    ]
+
+
+SUBS = [Choose(), IndexGrid(), IndexVector(), MatchExact(), MatchSorted(), IndexMatch(), AfterFloatUse(), LookupWholeFloats()]
